@@ -2,6 +2,7 @@ SPECIFICATION MCSpec
 CONSTANTS
   Fmt = "xmi"
   MaxLen = 3
+  MaxLen2 = 3
   Tempi = {500000, 480000}
 INVARIANT NoBad
 CHECK_DEADLOCK FALSE
